@@ -1,4 +1,6 @@
 ENGINES = [
+    {"name": "G", "path": "checks/c16.py", "serves_properties": ["C16"],
+     "kind_free_text": "real WSGIApplication config load in-process under generated argv / GUNICORN_CMD_ARGS / config file / framework dict"},
     {"name": "W", "path": "vlib/wenv.py", "serves_properties": ["C02", "C05", "C08", "C09", "C15", "C18", "C19"],
      "kind_free_text": "real Sync/Thread/Gevent/Eventlet worker objects (no fork) serving scripted fake sockets through handle(); generated WSGI application programs; capturing real glogging.Logger"},
     {"name": "P", "path": "vlib/penv.py", "serves_properties": ["C01", "C06", "C07", "C12"],
@@ -75,4 +77,11 @@ CHECKS = [
              "max_requests+draw, that response complete and closing, never with max_requests=0. R: real masters under sequential/concurrent "
              "non-keep-alive load: all responses complete, none refused/reset outside the listed known findings, per-pid bound, pids rotate.",
      "note": "jitter pinned by replacing gunicorn.workers.base.randint in the harness; R part bounded by wall-clock slack (inconclusive, never violation, on budget overrun)"},
+    {"id": "C16", "engine": "G",
+     "technique": "exhaustive enumeration (settings x source subsets x ordered value pairs x invalid values) plus Hypothesis-drawn multi-setting mixes against a priority-fold reference",
+     "text": "The real WSGIApplication configuration load runs in-process under a controlled argv, GUNICORN_CMD_ARGS, default config file and framework "
+             "dict: for every setting, every subset of the sources able to express it and every ordered pair of family values (incl. falsy values and "
+             "append options) the effective value must be the most authoritative mention in normal form, every other setting must keep its default, "
+             "and every invalid value (alone or below a valid mention) must end in SystemExit != 0.",
+     "note": "value families are chosen per validator by the harness (2-4 values each): exhaustive over these families, not over all values; --paste not exercisable (paste.deploy missing)"},
 ]
